@@ -251,6 +251,11 @@ def run(chk, tier, prop):
                 prop, idx, EV.get(ires[1][idx][0]), ires[1][idx]),
                 dict(kind="loop", prop=prop, case=small, rejected_index=idx, trace=pretty(ires[1], idx)), found=True)
             nbad += 1
+        elif prop == "C09" and i[0] != m[0] and i[0] and i[0][-1] == 4 and m[0] and m[0][-1] in (0, 1) and \
+                any(e[0] == 5 and e[3] == [1] for e in i[1]) and not any(e[0] == 15 for e in i[1][max(k for k, e in enumerate(i[1]) if e[0] == 5 and e[3] == [1]):]):
+            chk.violation("C09:run-did-not-return", "a handler requested exit (ExitMainLoop) but run() never returned: the loop is waiting on its queue (theorem C09_stops / C02_run_returns_only: the model returns with outcomes %s)" % m[0],
+                          dict(kind="loop", prop=prop, case=c, trace=pretty(i[1])[-40:]), found=True)
+            nbad += 1
         elif project(prop, i) != project(prop, m):
             chk.violation("corr:%s" % prop,
                           "implementation and model disagree on the %s-relevant part of a session (monitor still accepts the implementation trace)" % prop,
